@@ -97,6 +97,7 @@ func runWorld(t *rapid.T, prop string) {
 		}
 	}
 	ro := vnet.RunOpts{Profile: profile, MaxSteps: maxSteps(), AllowDrop: !unanimous, AllowByz: !unanimous}
+	ro.GreedyDecide = !unanimous && rapid.Bool().Draw(t, "greedydecide")
 	if unanimous {
 		// timely delivery from the very start: the closing regime is the whole run
 		ro.MaxSteps = 0
@@ -184,6 +185,7 @@ func runWorld(t *rapid.T, prop string) {
 		fmt.Sprintf("forged-flood>0:%v", w.Stats.ForgedFloods > 0),
 		fmt.Sprintf("supp-variant>0:%v", w.Stats.SuppVariants > 0),
 		fmt.Sprintf("validated-then-queued>0:%v", w.Stats.StagedReceived > 0),
+		fmt.Sprintf("greedy-decider:%v/realised:%v", ro.GreedyDecide, w.Stats.KillDecisions > 0),
 	}
 	if unanimous {
 		labels = append(labels, "unanimous-mode")
